@@ -462,11 +462,7 @@ func ztCompare(st *site, stt *stats, wc, od *envoy, tag string) ([]diff, bool) {
 		}
 		for _, n := range sortedKeys(need["WDS"]) {
 			if _, ok := a["WDS"][n]; !ok {
-				hint := aliasOnly(st, od, n, "missing")
-				if hint == "" {
-					hint = memberOnly(st, od, n)
-				}
-				out = append(out, diff{"ondemand:WDS", n, "missing", hint})
+				out = append(out, diff{"ondemand:WDS", n, "missing", untracked(st, od, n)})
 			}
 		}
 	}
@@ -539,6 +535,64 @@ func memberOnly(st *site, od *envoy, resource string) string {
 		return ""
 	}
 	return memberHint + strings.Join(via, ",")
+}
+
+// untracked classifies a resource the long-lived on-demand client is MISSING: both known classes can reach one
+// resource at once (a pod subscribed by its address before it existed AND member of a subscribed service). Known
+// only if the client never held it and EVERY subscription name that reaches it (asked of the REAL index) is either
+//
+//	a key that was answered "not found" (removed_resources listed it: an address, a VIP, or the name of a service
+//	that did not exist yet) - class alias-key-created-after-subscribe, or
+//	the key of a service the resource is a member of - class service-member-added-after-subscribe;
+//
+// a subscription by the resource's own name, or by an address that was found, tracks it: then it is no known class.
+func untracked(st *site, od *envoy, resource string) string {
+	ztEverMu.Lock()
+	had := ztEverHeld[od][resource]
+	ztEverMu.Unlock()
+	if had {
+		return ""
+	}
+	od.mu.Lock()
+	want := append([]string(nil), od.want...)
+	notFound := map[string]bool{}
+	if od.st != nil {
+		for n := range od.st.removedSeen["WDS"] {
+			notFound[n] = true
+		}
+	}
+	od.mu.Unlock()
+	var viaNotFound, viaService []string
+	for _, w := range want {
+		addrs, _ := st.s.Discovery.Env.AmbientIndexes.AddressInformation(sets.New(w))
+		reaches, service := false, false
+		for _, a := range addrs {
+			if a.ResourceName() == resource {
+				reaches = true
+			}
+			if a.GetService() != nil && a.ResourceName() != resource {
+				service = true
+			}
+		}
+		switch {
+		case !reaches:
+		case w == resource:
+			return "" // subscribed by its own name
+		case notFound[w]:
+			viaNotFound = append(viaNotFound, w)
+		case service:
+			viaService = append(viaService, w)
+		default:
+			return "" // an address that was found: the generator merged the resource name in
+		}
+	}
+	switch {
+	case len(viaService) > 0:
+		return memberHint + strings.Join(append(viaService, viaNotFound...), ",")
+	case len(viaNotFound) > 0:
+		return aliasHint + strings.Join(viaNotFound, ",")
+	}
+	return ""
 }
 
 // aliasOnly classifies a difference on the long-lived on-demand client. Pushes match subscriptions
@@ -626,8 +680,15 @@ func runC03Zt(h *History, stt *stats) result {
 		stt.client(wc)
 		stt.client(od)
 	}()
+	var firstKnown *result
 	check := func(step int) *result {
-		d, ok := ztSettle(st, stt, wc, od, itoa(step))
+		judged := od
+		if firstKnown != nil {
+			// after a known class of the on-demand client (it lacks resources for good, and what it is sent later
+			// depends on them) only the wildcard client is judged for the rest of the history
+			judged = nil
+		}
+		d, ok := ztSettle(st, stt, wc, judged, itoa(step))
 		if !ok {
 			r := timeoutResult("quiescence", merge(map[string]any{"after_step": step}, clientInfo(wc, od)))
 			return &r
@@ -640,11 +701,26 @@ func runC03Zt(h *History, stt *stats) result {
 			clause := "delta-ne-fresh"
 			if all(d, func(x diff) bool { return strings.HasPrefix(x.Hint, aliasHint) }) {
 				clause = "delta-ne-fresh:ondemand:alias-key-created-after-subscribe"
-			} else if all(d, func(x diff) bool { return strings.HasPrefix(x.Hint, memberHint) }) {
+			} else if all(d, func(x diff) bool {
+				return strings.HasPrefix(x.Hint, aliasHint) || strings.HasPrefix(x.Hint, memberHint)
+			}) {
 				clause = "delta-ne-fresh:ondemand:service-member-added-after-subscribe"
 			}
-			return &result{Clause: clause, Detail: merge(map[string]any{"after_step": step, "n": len(d), "diff": limitDiffs(d, 8),
+			res := &result{Clause: clause, Detail: merge(map[string]any{"after_step": step, "n": len(d), "diff": limitDiffs(d, 8),
 				"a": "long-lived ztunnel client", "b": "fresh ztunnel client", "want": strings.Join(od.want, ",")}, clientInfo(wc, od))}
+			if clause != "delta-ne-fresh" {
+				// a known class does not end the case: the history goes on (wildcard client only, see above); the
+				// known verdict is reported at the end
+				firstKnown = res
+				return nil
+			}
+			if firstKnown != nil {
+				res.Detail["after_known_class"] = firstKnown.Clause
+			}
+			return res
+		}
+		if firstKnown != nil {
+			stt.Extra["steps-compared-after-a-known-class"]++
 		}
 		ztNoteHeld(od)
 		return nil
@@ -665,6 +741,10 @@ func runC03Zt(h *History, stt *stats) result {
 		if r := check(i + 1); r != nil {
 			return *r
 		}
+	}
+	if firstKnown != nil {
+		firstKnown.Detail["history_completed"] = true
+		return *firstKnown
 	}
 	return result{OK: true, Summary: "c03 zt steps=" + itoa(len(h.Steps)) + " held=" + itoa(len(wc.snapshot()["WDS"])) + "/" + itoa(len(od.snapshot()["WDS"])) +
 		" want=" + itoa(len(od.want)) + " ops=" + opsShort(h.Steps)}
